@@ -452,9 +452,8 @@ def oracle(case, H, fstart, fend, st, s):
             spawns[op[1]] = {"inv": seq, "ret": r[0] if r else None, "res": r[1] if r else None,
                              "fn": op[2]}
         if k in ("trigger", "terminate") and r is not None:
-            # trigger_shutdown itself has returned once the op returned (terminate: at least invoked)
-            if k == "trigger":
-                shutdown_ret = r[0] if shutdown_ret is None else min(shutdown_ret, r[0])
+            # the shutdown has been triggered for sure once either call has returned (terminate = trigger + waitall)
+            shutdown_ret = r[0] if shutdown_ret is None else min(shutdown_ret, r[0])
     if st.get("closer_done") is not None:
         shutdown_ret = st["closer_done"] if shutdown_ret is None else min(shutdown_ret, st["closer_done"])
     sd_inv = st["shutdown_invoked"]
